@@ -36,7 +36,9 @@ def build(d):
         return {"discard": state}
     flags, date = projgen.gen_bump(d, nodes, state)
     # "bare": the {pep440_version} pattern has no literal after the placeholder and the text ends its line
-    return {"ast": nodes, "state": state, "old": text, "flags": flags, "date": date, "shared_line": d.chance(1, 3), "bare": d.chance(1, 3)}
+    return {"ast": nodes, "state": state, "old": text, "flags": flags, "date": date, "shared_line": d.chance(1, 3), "bare": d.chance(1, 3),
+            # "combined": ONE search pattern that holds both placeholders (archive/{version}/pkg-{pep440_version}.tgz)
+            "combined": d.chance(1, 6)}
 
 
 def readme_rules(T):
@@ -86,11 +88,15 @@ def check(case):
             return viol(bad[0] + ":set-up-text", bad[1], dict(detail, **bad[2]), nt=nt)
     tmp = tempfile.mkdtemp(prefix="c15_")
     try:
-        bare = case.get("bare")
+        bare = case.get("bare") and not case.get("combined")
+        combined = bool(case.get("combined"))
         spec = {"current_version": old, "version_pattern": pattern,
-                "files": [["f.txt", ['ver="{version}"', "pep == {pep440_version}" if bare else "pep='{pep440_version}'"]]]}
+                "files": [["f.txt", ['ver="{version}" pep=\'{pep440_version}\''] if combined else
+                           ['ver="{version}"', "pep == {pep440_version}" if bare else "pep='{pep440_version}'"]]]}
         projgen.write_file(tmp, "bumpver.toml", projgen.toml_config(spec))
-        if bare:
+        if combined:
+            body = 'x ver="%s" pep=\'%s\' y\n' % (old, old_pep)
+        elif bare:
             body = ('x ver="%s" and pep == %s\n' if case["shared_line"] else 'x ver="%s"\nand pep == %s\n') % (old, old_pep)
         else:
             body = ('x ver="%s" and pep=\'%s\' y\n' if case["shared_line"] else 'x ver="%s"\nand pep=\'%s\' y\n') % (old, old_pep)
@@ -100,7 +106,9 @@ def check(case):
         detail.update(args=args)
         if r.exit != 0:
             if "No match for pattern" in r.err and "pep=" in r.err:
-                return viol("derived-pattern-rejects-text-bumpver-renders", {}, dict(detail, res=r.summary(800)), nt=nt)
+                # (sig: a BUILD value of zero shown through the zero-truncating BLD of the derived pattern - finding F19)
+                return viol("derived-pattern-rejects-text-bumpver-renders", {"build_zero_through_bld": "BLD" in pep_pattern and int(state["bid"]) == 0},
+                            dict(detail, res=r.summary(800)), nt=nt)
             return ok(nt=False, classes=("update-declined",))
         N = r.new_version
         with open(os.path.join(tmp, "f.txt"), encoding="utf-8") as f:
@@ -145,6 +153,8 @@ def check(case):
                 return viol(bad[0] + ":after-second-update", bad[1], dict(detail, second_version=N2, **bad[2]), nt=nt)
         if bare:
             classes.append("bare-pep440-pattern")
+        if combined:
+            classes.append("both-placeholders-in-one-pattern")
         return ok(nt=nt, classes=tuple(classes))
     finally:
         shutil.rmtree(tmp, ignore_errors=True)
